@@ -16,7 +16,8 @@ from core.common import f2b, b2f, close
 from core import impl as I
 
 ID = "C15"
-LEAN_MODULES = ["AcnProofs.C15", "AcnProofs.C15E2E", "AcnProofs.Lemmas.CodeTieFit"]
+LEAN_MODULES = ["AcnProofs.C15", "AcnProofs.C15E2E"]
+TIE_MODULES = ["AcnProofs.Lemmas.CodeTieFit"]
 DRIVER = "drv_C15"
 REQUIRED_THEOREMS = [
     "Acn.C15.trunc_eq_floor", "Acn.C15.trunc_eq_ceil_before_epoch", "Acn.C15.zero_period_rejected",
